@@ -315,7 +315,7 @@ Hypothesis Hin_total : forall c l, exists c', step c (EIn l) = Some c'.
 Hypothesis Hres : forall c s nm n rest, Rel1 c s -> sym_eqb nm "wr" = true ->
   exists c', step c (EIn ("r", ASym nm :: AInt n :: rest)) = Some c' /\ RelW c' s.
 Hypothesis Hwdata : forall c b, step c (EOut (obs "wdata" [ABytes b])) = Some c.
-Hypothesis Hghost : forall c what cid b, what = "fail" \/ what = "hand" ->
+Hypothesis Hghost : forall c what cid b, what = "fail" \/ what = "hand" \/ what = "eagain" ->
   step c (EOut ("g", [ASym what; AInt cid; ABytes b])) = Some c.
 
 Lemma Inv_quiet_wdata : forall w b, Inv RelW w -> Inv RelW (emit (obs "wdata" [ABytes b]) w).
@@ -324,11 +324,11 @@ Proof.
   intros c _ Hc. exists c. split; [apply Hwdata|exact Hc].
 Qed.
 
-Lemma Inv_quiet_ghost : forall w what cid b, what = "fail" \/ what = "hand" ->
+Lemma Inv_quiet_ghost : forall w what cid b, what = "fail" \/ what = "hand" \/ what = "eagain" ->
   Inv RelW w -> Inv RelW (ghost what cid b w).
 Proof.
   intros w what cid b Hw H. unfold ghost. eapply Inv_emit; [exact H| |].
-  - destruct Hw; subst; reflexivity.
+  - destruct Hw as [->|[->| ->]]; reflexivity.
   - intros c _ Hc. exists c. split; [apply Hghost; exact Hw|exact Hc].
 Qed.
 
@@ -362,8 +362,7 @@ Proof.
       * destruct rest as [|[z|b|e] rest']; inversion Hs; subst;
           try (apply Inv_quiet_ghost; [auto|]; apply Inv_quiet_wdata; exact HI).
         destruct (is_eagain e);
-          [apply Inv_quiet_wdata; exact HI
-          |apply Inv_quiet_ghost; [auto|]; apply Inv_quiet_wdata; exact HI].
+          apply Inv_quiet_ghost; [auto| |auto|]; apply Inv_quiet_wdata; exact HI.
       * inversion Hs; subst. apply Inv_quiet_ghost; [auto|]; apply Inv_quiet_wdata; exact HI.
     + assert (Hk : (k, w') = (KNone, desync "expected-r-wr" w1)).
       { rewrite <- Hs. destruct ln as [|a ln]; [reflexivity|].
